@@ -218,10 +218,10 @@ func validInputSize(min, max int, tv reflect.Value, isHasEqual ...bool) (isLessT
 			}
 			return
 		}
-		if val < uint64(min) {
+		if val <= uint64(min) {
 			isLessThan = true
 		}
-		if val > uint64(max) {
+		if val >= uint64(max) {
 			isMoreThan = true
 		}
 	case reflect.Slice:
